@@ -6,7 +6,49 @@ import random
 from fractions import Fraction
 
 
+def run_late(tid, seed):
+    """The same contract late in a long run (clock about 10^6, where one rounding unit of the clock is ~10^-10 but
+    a relative tolerance would be ~10^-3): two parts reach the buffer 10 + eps apart, the exit is closed until the
+    first is due and opens exactly then; the second must wait its own delay, eps longer."""
+    from simprocesd.model import System, EventType
+    from simprocesd.model.factory_floor import Source, Buffer, PartFlowController, Sink
+    rng = random.Random(seed)
+    random.seed(seed)
+    T = rng.choice([1048576.0, 1000000.0, 3000000.0])
+    eps = rng.choice([0.0005, 0.0001, 0.0009, 0.00025])
+    delay = rng.choice([10, 10, 8])
+    system = System()
+    env = system.env
+    s1 = Source('s1', cycle_time=10, starting_parts=0)
+    s2 = Source('s2', cycle_time=10, starting_parts=0)
+    buf = Buffer('b', [s1, s2], minimum_delay=delay, capacity=None)
+    gate = PartFlowController('g', [buf])
+    sink = Sink('k', [gate])
+    gate.block_input = True
+    arr, dep, order_in, order_out = {}, {}, [], []
+    buf.add_receive_part_callback(lambda b, part: (arr.__setitem__(part.id, env.now), order_in.append(part.id)))
+    sink.add_receive_part_callback(lambda k, part: (dep.__setitem__(part.id, env.now), order_out.append(part.id)))
+    # (an idle source that is given a part to make hands it over at once: its cycle has long elapsed)
+    env.schedule_event(T - delay - 10, -1, lambda: s1.adjust_part_count(1), EventType.OTHER_HIGH_PRIORITY)
+    env.schedule_event(T - delay + eps, -1, lambda: s2.adjust_part_count(1), EventType.OTHER_HIGH_PRIORITY)
+    env.schedule_event(T, -1, lambda: setattr(gate, 'block_input', False), EventType.OTHER_LOW_PRIORITY)
+    system.simulate(T + 30, print_summary=False)
+    lines = []
+    for i, pid in enumerate(order_out):
+        a, d = arr[pid], dep[pid]
+        ulp = Fraction(math.nextafter(d, math.inf)) - Fraction(d)
+        early = (Fraction(a) + Fraction(delay) - Fraction(d)) > ulp
+        lines.append({'tid': tid, 'k': i, 'ev': {'early': bool(early), 'arrank': order_in.index(pid), 'deprank': i,
+                                                'cap': -1, 'maxlevel': 0, 'level': buf.level(), 'stored': len(buf.stored_parts)}})
+    if len(lines) != 2:      # both parts must have arrived and left
+        lines.append({'tid': tid, 'k': len(lines), 'ev': {'early': False, 'arrank': 0, 'deprank': 1, 'cap': -1, 'maxlevel': 0,
+                                                          'level': buf.level(), 'stored': len(buf.stored_parts)}})
+    return lines
+
+
 def run(tid, seed):
+    if seed % 6 == 5:
+        return run_late(tid, seed)
     from simprocesd.model import System
     from simprocesd.model.factory_floor import Source, Buffer, PartHandler, PartProcessor, Sink
     rng = random.Random(seed)
